@@ -21,7 +21,7 @@ def fill(add):
         "exploration",
         HIST,
         "Generated histories of tree transformations interleaved with contractions/queries, observed on the real tree, on a copy, or not at all, against an exact dense reference after every observed step. Finds stale-cache and mis-update defects reachable in <=10 steps on <=7 tensors; no proof of absence.",
-        "Transformations that raise are counted and rolled back, not judged; pools are not used (parallel=False); numpy backend.",
+        "Transformations that raise are counted and rolled back, not judged; forest/tempering drivers run serially or on harness-owned in-process pools emulating the pickle-boundary and scatter protocols (no real processes); numpy backend.",
         "DESIGN.md 1/C02",
     )
     add(
@@ -70,7 +70,7 @@ def fill(add):
         "exploration",
         GEN + "; exhaustive enumeration of the 3-symbol equation space",
         "Generated equations/shapes/axes plus (thorough) complete enumeration of all two-operand equations over 3 symbols, rank<=3, every ordered output and every shape assignment from {1,2,3}; exact comparison with an independent evaluator.",
-        "One size per label; non-negative tensordot axes.",
+        "Broadcast (size-1 vs n) shapes are judged against numpy.einsum; tensordot axes as int or pair of sequences, negative axis numbers included.",
         "DESIGN.md 1/C11",
     )
     add(
@@ -128,7 +128,7 @@ def fill(add):
         "exploration",
         "property-based testing over configurations and harness-owned schedules (Hypothesis-generated completion orders of a scheduled future pool, injected trial failures)",
         "Generated network x methods x objective x post-processing x max_repeats x executor; the completion order of a harness-owned pool is part of the generated (and shrinkable) case, failures are injected through a registered hyper method keyed on the drawn parameter; the winner's recorded figures are compared with the returned tree and the independent cost model.",
-        "Real thread pools sample orders; process pools are not used here; optlib='random'.",
+        "Real thread pools sample orders; process pools are emulated by a pickle boundary in the scheduled pool, not spawned; optlib random (cmaes with parametrised methods).",
         "DESIGN.md 1/C08",
     )
     add(
@@ -136,7 +136,7 @@ def fill(add):
         "exploration",
         "differential property testing across fresh interpreters (generated seeded-API cases, 3 PYTHONHASHSEED values, perturbed global RNG)",
         "Each generated case is executed twice in each of three fresh interpreters with different string-hash seeds and differently perturbed global random/numpy state, with unrelated random calls in between; all digests must coincide.",
-        "python backend, parallel=False; identical exceptions count as identical results.",
+        "python backend, parallel=False; identical exceptions raised inside cotengra count as identical results (exceptions raised by the worker's own code are harness errors).",
         "DESIGN.md 1/C17",
     )
 
@@ -145,7 +145,7 @@ def fill(add):
         "exploration",
         HIST + "; differential cached vs uncached",
         "Generated histories of interface calls over a pool of near-identical contractions (one cache-key component changed at a time, equal-hash values of different type), caches cleared per history; every value compared with the independent reference and with the same call made with caching disabled; explicit paths must come back unchanged.",
-        "64-bit hash collisions of genuinely different keys cannot be found by search.",
+        "Collisions of 64-bit string hashes of genuinely different keys cannot be found by search (systematic integer collisions such as hash(-1)==hash(-2) are generated).",
         "DESIGN.md 1/C13",
     )
     add(
